@@ -405,7 +405,7 @@ func runC17(c *fw.Ctx) {
 	// extreme arguments: chunk/batch counts and offsets near the ends of the int range
 	if c.Begin(idx + c.Block) {
 		var cnt int64
-		huge := []int{math.MaxInt, math.MaxInt - 1, math.MaxInt - 2, math.MaxInt - 7, math.MaxInt / 2, 1 << 62, 1 << 32, 1 << 31, 1<<31 - 1}
+		huge := []int{math.MaxInt, math.MaxInt - 1, math.MaxInt - 2, math.MaxInt - 7, math.MaxInt / 2, clipInt(1 << 62), clipInt(1 << 32), clipInt(1 << 31), 1<<31 - 1}
 		for ln := c.Block % 4; ln <= 12; ln += 4 {
 			for _, n := range huge {
 				c17chunksBatches(c, ln, n, false)
@@ -562,7 +562,7 @@ func runC17(c *fw.Ctx) {
 	if c.Thorough() && c.Block < 2 && c.Begin(idx+90+c.Block) {
 		// a slice of more than 2^31 elements (2 GiB of bytes): index arithmetic
 		// narrower than 64 bits wraps here; thorough tier only (about 30 s)
-		n := 1<<31 + 17
+		n := clipInt(1<<31 + 17)
 		k := []int{-1, 1<<31 - 3}[c.Block]
 		mk := func(i int) byte { return byte(i*131 + i>>8 + i>>17 + i>>26) }
 		ok, pv, stack := fw.Try(func() {
